@@ -11,6 +11,7 @@ fn main() {
 	let res = match name.as_str() {
 		"error_code_roundtrip" => probes::error_code_roundtrip(),
 		"client_tables_return_to_empty" => probes::client_tables_return_to_empty(),
+		"client_call_routing" => probes::client_call_routing(),
 		_ => json!({"probe": name, "error": "unknown probe"}),
 	};
 	println!("{}", res);
